@@ -56,7 +56,16 @@ def ncases(tier):
 
 def gen(rng, idx, tier, seed):
     mode = ['binop', 'binop', 'mask', 'eval'][idx % 4]
-    if idx % 12 in (9, 10, 11) and (idx // 12) % 2 == 0:
+    if idx % 24 == 20:
+        # IOAPI file from disk (its TFLAG is a declared coordinate) whose
+        # steps are not evenly spaced
+        from .. import gen_ioapi
+        ios = gen_ioapi.gen_spec(rng, kind='grid', via='from_arrays')
+        ios['nt'] = int(rng.integers(4, 7))
+        ios['masked'] = False
+        fs = {'ioapi_irregular': ios}
+        mode = 'binop'
+    elif idx % 12 in (9, 10, 11) and (idx // 12) % 2 == 0:
         # the operands are what a library reader returns for a valid image
         fs = {'reader': readerfiles.gen_spec(rng, idx=idx // 24)}
         mode = ['binop', 'mask', 'eval'][idx % 12 - 9]
@@ -73,7 +82,7 @@ def gen(rng, idx, tier, seed):
         spec['inject'] = bool(rng.random() < 0.6)
         spec['dtype_shift'] = bool(rng.random() < 0.4)
         spec['disk'] = bool(idx % 16 == 4)
-        if 'reader' in fs:
+        if 'reader' in fs or 'ioapi_irregular' in fs:
             spec['inject'] = spec['dtype_shift'] = spec['disk'] = False
         elif idx % 8 in (1, 5):
             # (a op b) op2 b: the intermediate result is the left operand
@@ -242,7 +251,7 @@ def binop_once(spec, res, a, b, op, coords, pncbo, label):
     judged = 0
     domain_leaks = []
     for k, va in sa.vars.items():
-        if k in timeflags(a):
+        if k in timeflags(a) and k not in coords:
             continue
         if k not in out.variables:
             problems.append('variable %s missing' % k)
@@ -550,7 +559,35 @@ def run_mask(spec, res, f=None):
                  kw=spec['kw'], badvars=badvars, via=via)
 
 
+def run_ioapi_irregular(spec, res):
+    import os
+    import PseudoNetCDF as pnc
+    from PseudoNetCDF.core._functions import pncbo
+    from .. import gen_ioapi
+    ios = spec['file']['ioapi_irregular']
+    f0 = gen_ioapi.build(ios)
+    keep = [0] + list(range(2, ios['nt']))
+    with harness.casedir() as d, harness.handles() as h:
+        try:
+            cut = f0.sliceDimensions(TSTEP=keep)
+            p = os.path.join(d, 'irr.nc')
+            h.keep(cut.save(p, format='NETCDF4_CLASSIC', verbose=0)).close()
+            a = h.keep(pnc.pncopen(p, format='ioapi'))
+        except Exception as e:
+            res.note('irregular-ioapi-unavailable:%s' % type(e).__name__)
+            return
+        coords = set(a.getCoords())
+        if 'TFLAG' not in coords:
+            res.note('TFLAG-not-a-coordinate')
+            return
+        res.facet('operands:ioapi-irregular-steps')
+        b = second_of(a, spec['seed'])
+        binop_once(spec, res, a, b, spec['op'], coords, pncbo, '')
+
+
 def run(spec, res):
+    if 'ioapi_irregular' in spec['file']:
+        return run_ioapi_irregular(spec, res)
     rdr = spec['file'].get('reader')
     if rdr:
         with harness.casedir() as d:
